@@ -28,8 +28,16 @@ P == Ideal!Probes
 LD == Ideal!LoadData
 LDW == {"ldset", "ljset"}
 LDR == {"ldget", "ljget"}
-All == (Ideal!Simple \cup Ideal!Nested) \ ({"timeout"} \cup LD)
+All == (Ideal!Simple \cup Ideal!Nested) \ ({"timeout"} \cup LD \cup Ideal!TimeKinds)
 D == Ideal!Disturbing \ {"timeout"}
+\* (round 8) the time limit as an option of the call: a call given a small limit, then (same page / next page /
+\* after other invocations) the slow invocation without a limit.  These histories wait for the clock of the sandbox.
+DevLim == {"TimeLimitKept"}
+KeptLim == INSTANCE ContextInvoke WITH Dev <- DevLim
+LimHists(t) ==
+  IF t = "quick" THEN { <<"lim_peek", "slow">>, <<"lim_peek", "page", "slow">> }
+  ELSE { <<l, "slow">> : l \in Ideal!Limited } \cup { <<l, x, "slow">> : l \in Ideal!Limited, x \in {"page", "bump", "nomod", "n_bump"} }
+    \cup { <<"slow", "lim_slow", "slow">>, <<"lim_slow", "lim_slow">>, <<"lim_peek", "slow", "page", "slow">>, <<"lim_slow", "peek", "bump">> }
 \* the loadData family: a write, anything (or a page break) in between, a read
 LDHists == { <<a, b>> : a \in LD, b \in LD }
       \cup { <<a, x, b>> : a \in LDW, x \in All \cup LD \cup {"page"}, b \in LDR }
@@ -45,7 +53,8 @@ Hists(t) ==
     \cup { <<d, "page", p>> : d \in D, p \in P }
     \cup { <<d, e>> \o rb : d \in D, e \in D, rb \in ReadBack }
     \cup LDHists
-    \cup { <<"timeout", "bump", "bump">> }                      \* the only case that waits for a (short) time limit
+    \cup { <<"timeout", "bump", "bump">> }                      \* waits for a (short) time limit
+    \cup LimHists(t)
   ELSE
        { <<a, b>> : a \in All, b \in All }
     \cup { <<a, b, c>> : a \in All, b \in All, c \in All }
@@ -58,6 +67,7 @@ Hists(t) ==
     \cup { <<"timeout", p>> : p \in P }
     \cup { <<"timeout">> \o rb : rb \in ReadBack }
     \cup { <<p, "timeout", q>> : p \in {"bump", "gset"}, q \in {"bump", "reqbump", "rget"} }
+    \cup LimHists(t)
 
 \* ---- nest cases ----
 Vias == {"P", "A", "T"}         \* frame:preprocess / argument expanded when read / frame:expandTemplate
@@ -113,14 +123,17 @@ Next == done = FALSE /\ done' = TRUE /\ UNCHANGED <<hist, nc>>
 Spec == Init /\ [][Next]_<<hist, nc, done>>
 Laws == Ideal!MeetsDemand(hist) /\ Ideal!CaseMeetsDemand(nc)
 EmitHist == \E o \in {Ideal!Outcomes(hist)} : \E kp \in {Kept!Outcomes(hist)} : \E ai \in {AsIs!Outcomes(hist)} :
+          \E kl \in {KeptLim!Outcomes(hist)} :
           PrintT(<<"CASE", ToJson([hist |-> hist, out |-> o, kept |-> IF kp = o THEN <<>> ELSE kp,
-                                   asis |-> IF ai = o THEN <<>> ELSE ai])>>)
+                                   asis |-> IF ai = o THEN <<>> ELSE ai, limkept |-> IF kl = o THEN <<>> ELSE kl])>>)
 EmitNest == \E o \in {Ideal!CaseOutcomes(nc)} : \E ai \in {AsIs!CaseOutcomes(nc)} : \E sh \in {Shared!CaseOutcomes(nc)} :
           PrintT(<<"NCASE", ToJson([nest |-> nc, out |-> o, asis |-> ai, shared |-> sh])>>)
 Emit == IF hist = <<>> THEN EmitNest ELSE EmitHist
 GenInv == done \/ (Laws /\ Emit)
 \* Demo: with the deviation some history violates the demand (TLC finds it)
 DemoKept == Kept!MeetsDemand(hist)
+\* Demo: with a time limit that stays in force for calls that give none some history violates the demand
+DemoTimeLimit == KeptLim!MeetsDemand(hist)
 \* Demo: with the per-page lifetime of the writable loadData tables some history violates the demand
 DemoLoadData == AsIs!MeetsDemand(hist)
 \* Demo: a nested invocation that runs in its caller's environment violates the demand on some nest case
